@@ -226,3 +226,20 @@ Proof.
   rewrite (firstn_concat_rows _ _ _ Hsub). rewrite firstn_app, Nat.sub_diag, firstn_all. cbn [firstn].
   rewrite app_nil_r. reflexivity.
 Qed.
+
+(* iter_arrays for ANY start / end / step: the items of the model at range(start, end or len, step),
+   IndexError at the first index outside -len .. len-1, ValueError for step 0 *)
+Theorem riter_arrays_spec : forall w g start stop step, RRel w g ->
+  riter_arrays (fst w) (snd w) start stop step =
+  if step =? 0 then Err ValueError
+  else collect (map (fun i => match g_getitem g i with Some sub => Ok (concat sub) | None => Err IndexError end)
+                    (py_range start (match stop with Some e => e | None => Z.of_nat (length (g_subs g)) end) step)).
+Proof.
+  intros w g start stop step HR. destruct (rgetitem_spec w g HR) as [_ Hget].
+  unfold riter_arrays. destruct (step =? 0); [reflexivity|].
+  destruct w as [h d]. pose proof HR as (HV & HI & Hd & Hinfo & Hrm & Hme & Hmode & Hty & Hb). cbn [fst snd] in *.
+  rewrite (index_rows_rel _ _ _ _ _ Hty HI (idx_bounds g Hb)).
+  assert (Hlen: length (idx_of g) = length (g_subs g)).
+  { unfold idx_of, g_lens. rewrite chain_from_length, map_length. reflexivity. }
+  rewrite Hlen. f_equal. apply map_ext. intros i. apply Hget.
+Qed.
